@@ -39,15 +39,15 @@ reg(P(
 
 reg(P(
     "C11", "Names resolve to the innermost visible earlier definition",
-    [("B5", ALL), ("V1", {"reference"}), ("B1", ALL)],
-    "lookup walks the current file's slice of the scope stack innermost first and returns the first hit; scopes become members only when complete; dotted names descend only through scopes; an import is pushed under its `as` name exactly for the 4-symbol alternative; the object found is the one stored in the field/array/alias (V1).",
+    [("B5", ALL), ("V1", {"reference"}), ("B1", ALL), ("C5", {"owner", "qualifier"})],
+    "lookup walks the current file's slice of the scope stack innermost first and returns the first hit; scopes become members only when complete; dotted names descend only through scopes; an import is pushed under its `as` name exactly for the 4-symbol alternative; the object found is the one stored in the field/array/alias (V1); the generators name the resolved definition and no like-named one: the reverse lookup Scope.get_name_by_member compares by identity (B5), the C name prefix is the one of the file the definition is bound to and an imported definition is qualified with the name the importing file gave the import (C5 parts owner / qualifier).",
     "no schema is compiled; the behaviour of dict/list primitives is trusted.",
 ))
 
 reg(P(
     "C13", "Constants evaluate arithmetically and reach every target language intact",
-    [("B4", ALL), ("V1", {"constant"}), ("C6", ALL), ("A1", {"parse"})],
-    "precedence/associativity table, operand order and integer division of the four binary actions, grouping, literal decoding, escape table, token order (B4); the evaluated value is what Constant.value, Array.cap and option values receive (V1); bool/int literal tables per language and string constants reach quoted templates only through an escaping function; the three constant-emission templates take value and type from the same constant (C6).",
+    [("B4", ALL), ("V1", {"constant"}), ("C6", ALL), ("A1", {"parse"}), ("A7", {"key"})],
+    "precedence/associativity table, operand order and integer division of the four binary actions, grouping, literal decoding, escape table, token order (B4); the evaluated value is what Constant.value, Array.cap and option values receive (V1); bool/int literal tables per language and string constants reach quoted templates only through an escaping function; the three constant-emission templates take value and type from the same constant (C6); no memoised function on the way tells apart values its memo key equates (True / 1, False / 0) (A7 part key).",
     "numeric results are not computed; Python's int arithmetic is trusted.",
 ))
 
@@ -67,21 +67,21 @@ reg(P(
 
 reg(P(
     "C20", "Lint is advisory and diagnostics point at the right line",
-    [("A6", ALL), ("A11", ALL), ("C7", ALL), ("B2", ALL), ("A5", {"check-only", "fatal"}), ("A1", {"lint"})],
-    "lint and renderers never write the AST (A6); every rule is registered, targets a supported type and cites the checked definition (A11); each rule tests its kind's convention with the right polarity (C7); positions come from tracked symbols, node token/column/line refer to the name symbol, the newline rule is the only line counter and no other token can swallow a newline, the diagnostic template contains file and L<line> (B2); check-only exits non-zero iff an error or a warning (A5).",
+    [("A6", ALL), ("A11", ALL), ("C7", ALL), ("B2", ALL), ("A5", {"check-only", "fatal"}), ("A1", {"lint"}), ("A7", {"memo-results"})],
+    "lint and renderers never write the AST (A6) and never change in place a list a memoised AST query handed out (A7 part memo-results); every rule is registered, targets a supported type and cites the checked definition (A11); each rule tests its kind's convention with the right polarity (C7); positions come from tracked symbols, node token/column/line refer to the name symbol, the newline rule is the only line counter and no other token can swallow a newline, the diagnostic template contains file and L<line> (B2); check-only exits non-zero iff an error or a warning (A5).",
     "column arithmetic of _get_col; behaviour of pascal_case/snake_case on arbitrary words.",
 ))
 
 reg(P(
     "C01", "Python encoder emits exactly the specified bit layout",
-    [("D5", {"ast", "py", "common"}), ("A4", {"ast", "py"}), ("D1", {"py"}), ("E1", {"py"}), ("C3", {"py", "ast"}), ("D3", {"py"}), ("D6", {"py"}), ("D7", {"py"}), ("C4", {"py"}), ("R1", {"py"})],
+    [("D5", {"ast", "py", "common"}), ("A4", {"ast", "py"}), ("D1", {"py"}), ("E1", {"py"}), ("C3", {"py", "ast"}), ("D3", {"py"}), ("D6", {"py", "py-array-default"}), ("D7", {"py"}), ("C4", {"py"}), ("R1", {"py"})],
     "size arithmetic equals the specification and BYTES_LENGTH / the encode allocation come from Message.nbytes() (D5); the processor list and dataclass fields are emitted in ascending field-number order (A4); the single-chunk encoder of bp.py equals the layout rule's normal form - stream byte i div 8, value byte 8*(j div 8), shift j mod 8 - i mod 8, mask 2^(i mod 8 + c) - 2^(i mod 8), OR store (D1) - and the chunk size satisfies 1 <= c <= 8, fits both bytes and never exceeds the field (E1); prefix: 16 bits, written before the children, carrying nbits/capacity (C3, D3); generated getters return (field >> rshift) for the field with that number and array depth (D6); alias/enum processors only delegate (D7); generator/runtime constructor arguments agree positionally (C4).",
     "that the composition of these yields the exact bytes for every schema and value (nothing is executed; no proof of the whole encoder).",
 ))
 
 reg(P(
     "C02", "Python decode(encode(v)) == v, and re-encoding reproduces the bytes",
-    [("D1", {"py"}), ("E1", {"py"}), ("D6", {"py", "py-decode"}), ("D4", {"py"}), ("D3", {"py"}), ("D7", {"py"}), ("C3", {"py"}), ("C4", {"py"}), ("R1", {"py"})],
+    [("D1", {"py"}), ("E1", {"py"}), ("D6", {"py", "py-decode", "py-array-default"}), ("D4", {"py"}), ("D3", {"py"}), ("D7", {"py"}), ("C3", {"py"}), ("C4", {"py"}), ("R1", {"py"})],
     "the decode chunk is the mirror of the encode chunk (D1 both directions against the same specification form); set-byte items OR a totally-converted chunk into the same reference the get-byte item reads, `=` only for bool, enum chunks go to the integer proxy (D6); sign extension from bit n-1 with mask -(2^n) for every width narrower than its storage, bp.intN thresholds 2^(N-1) / modulus 2^N (D4); decode half of the extensible processors including the skip target (D3); mask < 256 and progress (E1).",
     "equality of values; exceptions inside dataclasses / IntEnum for member values.",
 ))
@@ -145,15 +145,15 @@ reg(P(
 
 reg(P(
     "C12", "The wire format depends only on field numbers and resolved types",
-    [("F3", ALL), ("A4", ALL), ("D5", {"ast"}), ("D7", ALL), ("EC3", ALL), ("V1", {"reference"}), ("D2", ALL), ("D6", {"py", "go"}), ("B4", ALL)],
-    "layout-bearing computations (size arithmetic, planner, processor/descriptor constructors) read only number / cap / extensible / type attributes, never names, comments, positions or option values; comment / newline / semicolon actions build nothing (F3); declaration order is erased by sorting on the integer field number at every order-sensitive site (A4); Alias.nbits is the target's and alias processors only delegate in all three runtimes (D5, D7, EC3); the resolved definition object is what a field stores, wherever it was declared (V1); alias transparency of the generators: for every type shape reached through an alias the optimization-mode statements and the generated accessors are the ones of the aliased type, with the alias name only where the target language needs a conversion (D2 scenarios Alias->leaf incl. the unsigned working type, D6 shapes alias(...)); a literal and a constant expression of equal value are the same to the rest of the compiler because operator precedence and associativity are the usual ones (B4).",
+    [("F3", ALL), ("A4", ALL), ("D5", {"ast"}), ("D7", ALL), ("EC3", ALL), ("V1", {"reference"}), ("D2", ALL), ("D6", {"py", "go"}), ("B4", ALL), ("R1", ALL), ("D3", ALL)],
+    "layout-bearing computations (size arithmetic, planner, processor/descriptor constructors) read only number / cap / extensible / type attributes, never names, comments, positions or option values; comment / newline / semicolon actions build nothing (F3); declaration order is erased by sorting on the integer field number at every order-sensitive site (A4); Alias.nbits is the target's and alias processors only delegate in all three runtimes (D5, D7, EC3); the resolved definition object is what a field stores, wherever it was declared (V1); alias transparency of the generators: for every type shape reached through an alias the optimization-mode statements and the generated accessors are the ones of the aliased type, with the alias name only where the target language needs a conversion (D2 scenarios Alias->leaf incl. the unsigned working type, D6 shapes alias(...)); a literal and a constant expression of equal value are the same to the rest of the compiler because operator precedence and associativity are the usual ones (B4); the runtimes keep nothing between fields or calls that could make the bytes depend on the numbers themselves rather than their order: no module / package / file-scope state is written (R1) and every field is processed with a fresh indexer built from its own number (D3).",
     "byte equality of two compilations.",
 ))
 
 reg(P(
     "C14", "Every width x bit-offset x signedness combination is bit-exact in every runtime",
-    [("E1", ALL), ("D1", ALL), ("EC1", ALL), ("EC2", ALL), ("C2", ALL), ("CC2", ALL), ("D4", ALL), ("CD4", ALL), ("G1", ALL), ("D2", ALL), ("R1", ALL)],
-    "the obligations are parametric in (n, si, di), which is this property's space: chunk bounds for Python/Go/planner (E1) and the chunk plan (D1); the C copier's obligations on every path for all 64 (si, di) pairs and every n in the path's interval, both build variants (EC1); batch predicate (EC2); storage partitions (C2, CC2); sign extension sites incl. bp.intN thresholds and the C cases (D4, CD4).",
+    [("E1", ALL), ("D1", ALL), ("EC1", ALL), ("EC2", ALL), ("C2", ALL), ("CC2", ALL), ("D4", ALL), ("CD4", ALL), ("G1", ALL), ("D2", ALL), ("R1", ALL), ("CC4", ALL), ("D6", {"py-array-default"})],
+    "the obligations are parametric in (n, si, di), which is this property's space: chunk bounds for Python/Go/planner (E1) and the chunk plan (D1); the C copier's obligations on every path for all 64 (si, di) pairs and every n in the path's interval, both build variants (EC1); batch predicate (EC2); storage partitions (C2, CC2); sign extension sites incl. bp.intN thresholds and the C cases (D4, CD4); the storage size the C runtime's sign extension and array stride rely on is sizeof(the C type) in every generated descriptor (CC4); generated accessors and default values per type shape, incl. one fresh object per array element (D6).",
     "bit-exactness of the C partial-byte expressions beyond their mask form.",
 ))
 
